@@ -318,9 +318,11 @@ def guard(col, fn, fmt, zone, case):
         return None
 
 
-def check_text(col, tmp, fmt, text, zone, modes=("lazy", "eager"), focus=None):
+def check_text(col, tmp, fmt, text, zone, modes=("lazy", "eager"), focus=None, label=None):
     """the run-time contract for one file: count + every column, in every read mode.
-    signature = format : column : failure kind : zone   (zone = class of the input, never the focus column or a counter)"""
+    signature = format : column : failure kind : zone   (zone = class of the input, never the focus column or a counter).
+    label: stands in the signature instead of the format, for a class of inputs that is one class whatever the format"""
+    sig = label or fmt
     data = text.encode("latin1")
     n_exp, exp = expected_of(fmt, data)
     equal = long_float_equal if zone.startswith("long-float") else ref.values_equal
@@ -330,14 +332,16 @@ def check_text(col, tmp, fmt, text, zone, modes=("lazy", "eager"), focus=None):
         f.write(data)
     for mode in modes:
         case = {"format": fmt, "text": text, "zone": zone, "mode": mode, "focus": focus}
+        if label:
+            case["label"] = label
         col.case({"f": fmt, "m": mode, "t": text}, nontrivial=True, contract="count+columns:" + fmt)
-        d = guard(col, lambda: read_with(fmt, path, data, mode), fmt, zone, case)
+        d = guard(col, lambda: read_with(fmt, path, data, mode), sig, zone, case)
         if d is None:
             continue
-        n_got = guard(col, lambda: len(d), fmt, zone, case)
+        n_got = guard(col, lambda: len(d), sig, zone, case)
         if n_got is None:
             continue
-        col.check(n_got == n_exp, "%s:count:wrong-number-of-entries:%s" % (fmt, zone), case,
+        col.check(n_got == n_exp, "%s:count:wrong-number-of-entries:%s" % (sig, zone), case,
                   "entries %r, records in file %r" % (n_got, n_exp))
         for name, e in exp.items():
             if name == "genotypes" and fmt == "vcf-matrix":
@@ -345,14 +349,14 @@ def check_text(col, tmp, fmt, text, zone, modes=("lazy", "eager"), focus=None):
             keys = [None] if not isinstance(e, dict) else list(e)
             for key in keys:
                 ee = e if key is None else e[key]
-                label = name if key is None else "%s.%s" % (name, key)
-                g = guard(col, lambda: column_value(fmt, d, name, key), fmt, zone, case)
+                label_c = name if key is None else "%s.%s" % (name, key)
+                g = guard(col, lambda: column_value(fmt, d, name, key), sig, zone, case)
                 if g is None:
                     continue
                 if isinstance(g, str) and isinstance(ee, list):
                     g = list(g)
-                col.check(equal(g, ee), "%s:%s:wrong-value:%s" % (fmt, label, zone), case,
-                          "column %s: got %r expected %r" % (label, g, ee))
+                col.check(equal(g, ee), "%s:%s:wrong-value:%s" % (sig, label_c, zone), case,
+                          "column %s: got %r expected %r" % (label_c, g, ee))
 
 
 LONG_FLOAT_ULPS = 16
@@ -1250,7 +1254,8 @@ def replay(case):
         elif case["format"] == "history":
             check_history(col, tmp, case["fmt"], case["texts"], case["relation"], case["mode"], case["order"])
         else:
-            check_text(col, tmp, case["format"], case["text"], case.get("zone", "replay"), (case["mode"],), case.get("focus"))
+            check_text(col, tmp, case["format"], case["text"], case.get("zone", "replay"), (case["mode"],), case.get("focus"),
+                       case.get("label"))
     if col.failures:
         return False, "; ".join(f["signature"] + ": " + f["message"] for f in col.failures)
     return True, "ok"
